@@ -358,3 +358,46 @@ func (c *vCollectT) Write(p []byte) (int, error) {
 	c.b = append(c.b, p...)
 	return len(p), nil
 }
+
+// A source failure that arrives together with data while the header is being read (one Read returns the rest of the
+// document AND an error): after readHeader, reading the stream it handed back yields the bytes behind the header and
+// then the source's error - the failure is not lost because the header happened to be complete in that read.
+//
+//verif:harness prop=C02 name=header_read_source_error unwind=60
+func VerifHeaderReadSourceError() {
+	M := zzverif.Bytes("M", 2)
+	C := zzverif.Bytes("C", 1)
+	zzverif.Assume(M[0] != '\n' && M[1] != '\n' && C[0] != '\n')
+	rest := zzverif.Bytes("rest", zzverif.Choose("rest_len", 3))
+	doc := append([]byte(SchemeName+"\n"), M...)
+	doc = append(doc, '\n')
+	doc = append(doc, C...)
+	doc = append(doc, '\n')
+	hdr := len(doc)
+	doc = append(doc, rest...)
+	at := hdr + zzverif.Choose("fail_after_rest_bytes", len(rest)+1) // the failure comes with (some of) the bytes behind the header
+	src := &vReader{data: doc, failAt: at, failErr: errSrc, errWithData: zzverif.Bool("error_together_with_data"), split: zzverif.Choose("split_reads", 2)}
+	var in io.Reader = src
+	m, c, err := readHeader(&in)
+	if err != nil {
+		zzverif.Assert(errors.Is(err, errSrc), "only_the_source_error_fails_a_well_formed_header")
+		zzverif.Cover("header_read_source_error_refused")
+		return
+	}
+	zzverif.Assert(zzverif.EqBytes(m, M) && zzverif.EqBytes(c, C), "header_lines_returned")
+	var got []byte
+	buf := make([]byte, 2)
+	var rerr error
+	for i := 0; i < 8; i++ {
+		var n int
+		n, rerr = in.Read(buf)
+		got = append(got, buf[:n]...)
+		if rerr != nil {
+			break
+		}
+	}
+	zzverif.Assume(rerr != nil)
+	zzverif.Assert(errors.Is(rerr, errSrc), "source_error_behind_the_header_surfaces")
+	zzverif.Assert(len(got) == at-hdr && zzverif.EqBytes(got, rest[:at-hdr]), "bytes_behind_the_header_preserved")
+	zzverif.Cover("header_read_source_error_done")
+}
